@@ -54,9 +54,9 @@ type wop struct {
 	CBMark      bool // the id / created callbacks write into the message that is being written (B = true), as the trait models do with generated ids
 	// WithMoreUpdateMask: after the update mask (adds to it; nothing to add to if there is none), or - MoreFirst, only
 	// without a mask - before an explicit WithUpdateMask(nil), which still means "no mask: the whole message"
-	HasMore   bool
-	MoreMask  []string
-	MoreFirst bool
+	HasMore     bool
+	MoreMask    []string
+	MoreFirst   bool
 	HasWT       bool
 	WT          time.Time
 	AllWritable bool // WithAllFieldsWritable
